@@ -423,6 +423,32 @@ def check_one_shot_iterators(rep, prog, runs):
     rep.count("values held by shared objects", n)
 
 
+def check_options_reusable(rep, fm, rule="C19.R3.shared-state-writes"):
+    """the options object main() builds is read again for every file of a directory mode: a selection list kept there as a
+    generator / map / filter object is consumed by the first file, and the later files are selected against nothing"""
+    from ..interp import Instance
+    I = fm.I
+    n = 0
+    for oid, o in I.heap.items():
+        if not (isinstance(o, Instance) and o.cls.name == "Config"):
+            continue
+        for k, v in o.attrs.items():
+            alts = []
+
+            def lv(t):
+                if isinstance(t, Ite):
+                    lv(t.a), lv(t.b)
+                else:
+                    alts.append(t)
+            lv(v)
+            kinds = sorted({kd for kd in (one_shot(a, I) for a in alts) if kd})
+            n += 1
+            rep.check(not kinds, rule, "Config.%s can be read again for every file" % k, "pel.peltool.peltool.main", "config.%s = ..." % k,
+                      "the option Config.%s can hold a one-shot iterator (%s): the first file that is tested against it consumes "
+                      "it and every later file of the run is selected against what is left" % (k, ", ".join(kinds)))
+    rep.floor("option attributes", n, 5)
+
+
 def check_loaded_data_and_options(rep, prog, runs):
     """(a) values reached through data that was loaded once and is shared (the message registry, component-id files) are
     never modified in place by a decode; (b) a decode does not change the options object it was given"""
@@ -484,6 +510,10 @@ def run(rep, prog, thorough):
     # entry id): the mode's stdout summary run over all outcome patterns (rule shared with C06 / C08 / C09)
     from .c09 import check_all_separator
     from ..cli import FullMain
-    check_all_separator(rep, FullMain(prog), "C19.R4.no-value-outlives-its-file")
+    fm = FullMain(prog)
+    check_all_separator(rep, fm, "C19.R4.no-value-outlives-its-file")
+    check_options_reusable(rep, fm)
     from ..effects import check_no_memoised
     check_no_memoised(rep, prog, 'C19.R3.shared-state-writes', None, 'a decode returns what an earlier decode computed for equal arguments')
+    from ..effects import check_lazy_init_order
+    check_lazy_init_order(rep, prog, "C19.R3.shared-state-writes")
